@@ -13,7 +13,7 @@ use crate::rng::Rng;
 pub const RULE: &str = "case = (alphabet, scoring matrix with finite non-wildcard entries, background uniform, dyadic non-uniform, strongly skewed from counts, or with a non-zero wildcard frequency (the wildcard is then one more symbol of the random word, also with wildcard cells below the rest of their row)). For DNA widths <= 8 and protein widths <= 3 the exact distribution of the score of a background-distributed word is enumerated (all K^M words, f64) and every pvalue(s) must lie in [P(S >= s+d), P(S >= s-d)] (+-1e-9), d = (M/2+1) discretisation steps (step read back through unscale); query scores: below the minimum, above the maximum, exactly attainable, attainable +- epsilon, uniform in range. Structural checks for all widths up to 30: sf() non-increasing within [0,1], p-values non-increasing along an increasing score grid, pvalue(score(p)) <= p for p log-uniform in (0,1) and equal to tabulated tails. Non-trivial = width >= 2; distinct = distinct (alphabet, matrix, background).";
 
 pub const REQUIRED: &[&str] = &[
-    "alphabet.dna", "alphabet.protein", "bg.uniform", "bg.nonuniform", "bg.skewed_from_counts", "bg.wildcard_weighted", "class.wildcard_cell_below_row", "exact.enumerated", "structural.only",
+    "alphabet.dna", "alphabet.protein", "bg.uniform", "bg.nonuniform", "bg.skewed_from_counts", "bg.wildcard_weighted", "bg.null_regular_symbol", "class.wildcard_cell_below_row", "exact.enumerated", "structural.only",
     "query.below_min", "query.far_below_min", "query.far_above_max", "query.above_max", "query.attainable", "query.attainable_eps", "query.random",
     "roundtrip.p_log_uniform", "roundtrip.p_attainable_tail", "matrix.log_odds", "matrix.arbitrary_finite", "matrix.flat", "roundtrip.p=1",
 ];
@@ -53,6 +53,26 @@ fn run_case<A: Alphabet>(case: u64, rng: &mut Rng, rep: &mut Report, alpha: &str
             let b = Background::<A>::from_counts(&ga).unwrap();
             (b.frequencies().to_vec(), b)
         }
+    } else if rng.chance(0.12) {
+        // one or two regular symbols never occur (a GC-only genome, a depleted residue): their
+        // frequency is null although later symbols of the alphabet have a positive one
+        rep.cover("bg.null_regular_symbol");
+        let mut bgv = dyadic_nonzero_bg(rng, k);
+        for _ in 0..rng.range(1, 2) {
+            let z = rng.below(k - 2);
+            let to = (z + 1 + rng.below(k - 2 - z)).min(k - 2);
+            if to != z && bgv[z] > 0.0 {
+                bgv[to] += bgv[z];
+                bgv[z] = 0.0;
+            }
+        }
+        match Background::<A>::new(bgv.iter().cloned().collect::<GenericArray<f32, A::K>>()) {
+            Ok(b) => (bgv, b),
+            Err(_) => {
+                rep.violate("c11.setup", case, format!("dyadic background rejected: {:?}", bgv), J::Null);
+                return;
+            }
+        }
     } else if rng.chance(0.5) {
         rep.cover("bg.uniform");
         (uniform_bg(k), Background::<A>::uniform())
@@ -68,7 +88,9 @@ fn run_case<A: Alphabet>(case: u64, rng: &mut Rng, rep: &mut Report, alpha: &str
         }
     };
     // matrix: log-odds built by the library from counts, or arbitrary finite cells
-    let (pssm, fam): (ScoringMatrix<A>, &str) = if rng.chance(0.6) {
+    // (log-odds under a null frequency are -inf: outside "finite non-wildcard entries")
+    let null_regular = bgv[..k - 1].iter().any(|&x| x == 0.0);
+    let (pssm, fam): (ScoringMatrix<A>, &str) = if !null_regular && rng.chance(0.6) {
         rep.cover("matrix.log_odds");
         let mut dm = lightmotif::dense::DenseMatrix::<u32, A::K>::new(m);
         for i in 0..m {
